@@ -27,40 +27,50 @@ FUNCTIONS = ['pymeeus/Moon.py:PERIODIC_TERMS_LR_TABLE', 'pymeeus/Moon.py:PERIODI
              'pymeeus/Angle.py:Angle.dms2deg', 'pymeeus/Angle.py:Angle.reduce_dms', 'pymeeus/Angle.py:Angle.__add__',
              'pymeeus/Angle.py:Angle.__sub__', 'pymeeus/Angle.py:Angle.__rsub__', 'pymeeus/Angle.py:Angle.__neg__',
              'pymeeus/Coordinates.py:ecliptical2equatorial', 'pymeeus/Epoch.py:Epoch.get_full_date',
-             'pymeeus/Epoch.py:Epoch.get_doy', 'pymeeus/Epoch.py:Epoch.year']
+             'pymeeus/Epoch.py:Epoch.get_doy', 'pymeeus/Epoch.py:Epoch.get_date', 'pymeeus/Epoch.py:Epoch.is_leap',
+             'pymeeus/Coordinates.py:nutation_longitude', 'pymeeus/Coordinates.py:nutation_obliquity',
+             'pymeeus/Coordinates.py:mean_obliquity', 'pymeeus/Coordinates.py:true_obliquity',
+             'pymeeus/Sun.py:Sun.apparent_rightascension_declination_coarse']
 
 MANIFEST = dict(
     text=("PARTIAL. Lean 4 theorems (Props/C15.lean) about the real-number model of pymeeus/Moon.py whose tables "
           "47.A/47.B and all 450 periodic terms of the finders are regenerated from the source by tools/gen_moon.py "
-          "on every run: parallax = asin(6378.14/distance) with the argument in (0,1) because the amplitude sum of "
-          "table 47.A keeps the distance above 355 000 km; illuminated fraction in [0,1]; for the four finders and "
-          "every target string: the lunation count k is monotone in the query and skips no integer, |periodic "
+          "on every run, composed with the calendar models of C01/C16 so that the four finders are functions of the "
+          "query JDE: parallax = asin(6378.14/distance) with the argument in (0,1) because the amplitude sum of "
+          "table 47.A keeps the distance above 355 000 km; illuminated fraction in [0,1]; mean node / perigee "
+          "polynomials advance at -1934.136 / +4069.014 deg per century within 0.29 / 1.42; for the four finders "
+          "and every target string: the count k is monotone in the fractional year and skips no integer, |periodic "
           "correction| <= the sum of the generated amplitudes, consecutive results are one mean period apart within "
-          "twice that sum and strictly increasing, the result is within half a period plus that sum of the mean "
-          "instant selected by the fractional year; any other target string raises ValueError; the mean node / perigee polynomials advance at -1934.136 / +4069.014 deg per century within 0.29 / 1.42 deg per century. NOT proved (no "
-          "certified interval arithmetic for long trigonometric sums; triangle-inequality bounds are 355 000-415 000 "
-          "km and 6.2 deg): distance 356 000-407 000 km, |latitude| <= 5.35 deg, longitude rate, fraction vs "
-          "geometry, the secular rates after the Angle reduction and of the true node, agreement of the finders with the position theory, the 1.6-month clause in "
-          "calendar terms. These clauses are evaluated on the implementation only (predicates (I)), sweeping every "
-          "calendar day of sample years of both calendars incl. 29 February of Julian century years. The model is "
-          "tied to /repo by the bit-exact binary64 run."),
+          "twice that sum and strictly increasing, any other target string raises ValueError; in terms of the query "
+          "JDE (years -2000..4000): results never move backwards for queries of one calendar year or at least 1/365 "
+          "day apart, and result - query lies in an explicit window of days (P/2 + amplitude sum + the calendar step "
+          "between the fractional year and the JDE: offset at 2000, 0.0066 d per Gregorian year, the 10 days of "
+          "1582), e.g. at most 58.9 d for 'last'. Two clauses are FALSE of the current code and proved so / listed: "
+          "'never backwards' (counterexample theorem at 1727-12-31 23:58 / 1728-01-01 00:00, node finder) and "
+          "'within 1.6 months' (last quarter, full moon, descending node in late years). NOT proved (no certified "
+          "interval arithmetic for long trigonometric sums; triangle-inequality bounds are 355 000-415 000 km and "
+          "6.1 deg): distance 356 000-407 000 km, |latitude| <= 5.35 deg, longitude rate, fraction vs geometry, the "
+          "secular rates after the Angle reduction and of the true node, agreement of the finders with the position "
+          "theory. These clauses are evaluated on the implementation only (predicates (I)), sweeping every calendar "
+          "day of sample years of both calendars incl. 29 February of Julian century years and the minutes around "
+          "every year end. The model is tied to /repo by the bit-exact binary64 run of the whole chain from the JDE."),
     note=("Trusted: Lean kernel, Mathlib, axioms propext/Classical.choice/Quot.sound; the hand-written evaluators and "
-          "control flow of lean/templates/Moon.lean and the translator tools/gen_moon.py (both validated bit for bit "
-          "against CPython on every run); the finders' fractional year (Epoch.get_date/is_leap/get_doy, property C16) "
-          "enters the finder models as an input computed by the implementation; nutation/obliquity enter the "
-          "apparent-position models as inputs; Epoch(jde) is the identity in the real model (C02). Idealisation "
-          "binary64 -> real not verified. Known finding: last-quarter (from about year 2550) and full-moon (from "
-          "about 3900) results lie more than 1.6 synodic months after the query."),
+          "control flow of lean/templates/Moon.lean, MoonYear.lean and the translator tools/gen_moon.py, and the "
+          "models they compose (EpochCore/EpochCal calendar functions, Vsop/SunEarth nutation, obliquity and coarse "
+          "Sun), all validated bit for bit against CPython on every run from the query JDE alone; Epoch(jde) is the "
+          "identity in the real model (C02); the real-model finders take a rational JDE (every binary64 is one). "
+          "Idealisation binary64 -> real not verified. Known findings: last-quarter (from about year 2500), full-moon "
+          "(from about 3700) and descending-node (from about 3900) results lie more than 1.6 synodic months after "
+          "the query; the node finder moves 27 days backwards between 1727-12-31 23:57:43 and 1728-01-01 00:01:39."),
     technique="Lean 4 proof over a generated table/term model + bit-exact model/implementation correspondence + predicates on the implementation",
     ref='6 C15')
 
 TRUSTED = [
     'tools/gen_moon.py (ast translator of the tables and the 450 periodic terms) and the hand-written evaluators of '
-    'lean/templates/Moon.lean: validated by the bit-exact correspondence run below',
-    'the fractional year of the finders (y + doy/days_in_year from Epoch.get_date, Epoch.is_leap, Epoch.get_doy) is '
-    'computed by the implementation and passed to the finder models as an input (those functions belong to C16/C01)',
-    'nutation_longitude / true_obliquity (C08) and the coarse Sun position enter apparent_* / position_bright_limb '
-    'models as inputs computed by the implementation',
+    'lean/templates/Moon.lean, MoonYear.lean: validated by the bit-exact correspondence run below',
+    'no value computed by the implementation enters the models any more: the finders are tied from the query JDE '
+    '(get_date, is_leap, get_doy, fractional year, count, series, Epoch(jde)), the apparent positions and the bright '
+    'limb from the JDE (nutation_longitude, true_obliquity, coarse Sun are the models of templates Vsop / SunEarth)',
     'the predicates use the library\'s own Sun position (Sun.apparent_geocentric_position, '
     'Sun.geometric_geocentric_position) as the property prescribes',
 ]
